@@ -61,7 +61,25 @@ fn recv_body_inner(api: &str, head: &[u8]) -> Option<Rut> {
         }
         let f = Flow::new(b.body(()).unwrap()).unwrap();
         let mut f = crate::fx::to_recv_response(f).expect("harness: reach RecvResponse");
-        if expect {
+        if expect && (v / 60) % 2 == 1 {
+            // the late interim response and the head arrive in one window: skipped and the caller asked to come back with the
+            // rest, or skipped and the head answered by the same call - either way every byte is accounted for
+            let mut w = b"HTTP/1.1 100 Continue\r\n\r\n".to_vec();
+            w.extend(head);
+            w.extend(b"0123");
+            let (n, r) = f.try_response(&w).unwrap();
+            if r.is_none() {
+                assert!(n == 25, "harness: late 100 not skipped exactly");
+                let (n2, r2) = f.try_response(&w[25..]).unwrap();
+                assert!(r2.is_some() && n2 == head.len(), "harness: head not accepted");
+            } else {
+                assert!(n == 25 + head.len(), "harness: late 100 and head not consumed exactly");
+            }
+            return match f.proceed().unwrap() {
+                RecvResponseResult::RecvBody(f) => Some(Rut::Flow(f)),
+                _ => None,
+            };
+        } else if expect {
             // the interim response arrives late and is skipped
             let (n, r) = f.try_response(b"HTTP/1.1 100 Continue\r\n\r\n").unwrap();
             assert!(n == 25 && r.is_none(), "harness: late 100 not skipped");
@@ -601,6 +619,23 @@ pub fn c07(o: &Opts, t: &mut Tracer) -> Value {
         }
         t.sig(format!("bcuts/{}", ci));
     }
+    // chunks of 64 KiB and more (five and more hex digits in the size line), read with large buffers
+    for (k, &n) in [65535usize, 65536, 65537, 0xFFFFF, 1 << 20, (1 << 24) + 3].iter().enumerate() {
+        if o.quick() && n > (1 << 20) {
+            continue;
+        }
+        let small = ChunkSpec { data: pat(3, 1), zeros: 0, upper: false, ext: vec![] };
+        let huge = ChunkSpec { data: payload(n, n as u64), zeros: k % 3, upper: k % 2 == 0, ext: if k % 3 == 1 { b";x".to_vec() } else { vec![] } };
+        let c = mk_coding(&[small.clone(), huge, small], 0, b"", if k % 2 == 0 { &[b"t: v"] } else { &[] }, b"HTTP/1.1 200 OK\r\n");
+        selfcheck_coding(&c);
+        let outs_huge: [&[usize]; 4] = [&[1 << 20], &[100000], &[65536, 4096], &[70000, 1]];
+        for (j, outs) in outs_huge.iter().enumerate() {
+            let cut = [c.l / 2, 8 + 4, c.l - 3, 70000.min(c.l - 1)][j];
+            run_schedule(t, ["flow", "call"][(j + k) % 2], &c, &[cut], outs, (j % 3) as u8, "huge-chunk");
+        }
+        t.class("r:chunk-of-64k-or-more");
+        t.sig(format!("huge/{}", n));
+    }
     // the payload is read with exactly fitting buffers, everything after it (CRLF, last chunk, trailers,
     // final CRLF) is drained with a zero-length output buffer; and data-less bodies with zero-length buffers only
     for (ci, c) in all.iter().enumerate() {
@@ -831,6 +866,9 @@ pub fn c08(o: &Opts, t: &mut Tracer) -> Value {
     // a body longer than 4 GiB really streamed through (windows of 32 MiB from one reused buffer):
     // the length must still be honoured to the byte, with the next response left unconsumed
     {
+        // (the bulk goes through with logging off: hex-dumping 8 GiB into the log sink is not what this case is about)
+        let level = log::max_level();
+        log::set_max_level(log::LevelFilter::Off);
         let big = payload(1 << 25, 88);
         for (n, api) in [((1u64 << 32) + 10, "flow"), ((1u64 << 32) - 1 + (1 << 25), "call")] {
             let head = format!("HTTP/1.1 200 OK\r\nContent-Length: {}\r\n\r\n", n);
@@ -885,6 +923,7 @@ pub fn c08(o: &Opts, t: &mut Tracer) -> Value {
                 }
             }
         }
+        log::set_max_level(level);
     }
     // close-delimited
     let nclose = if o.quick() { 60 } else { 3000 };
